@@ -433,6 +433,15 @@ bool DependencyScan::RecomputeNodeDirty(Node* node, std::vector<Node*>* stack,
 
   bool dirty = false;
   edge->outputs_ready_ = true;
+  // An edge is visited a second time after a dyndep file was loaded (see
+  // Plan::UnmarkDependents).  Its deps are not reloaded then, and the plan
+  // already wants it if the first visit found it dirty: keep both facts.
+  const bool revisit_deps_missing = edge->deps_loaded_ && edge->deps_missing_;
+  bool revisit_dirty = false;
+  if (edge->deps_loaded_) {
+    for (Node* o : edge->outputs_)
+      revisit_dirty = revisit_dirty || o->dirty();
+  }
   edge->deps_missing_ = false;
 
   const bool edge_deps_loaded = edge->deps_loaded_;
@@ -519,6 +528,11 @@ bool DependencyScan::RecomputeNodeDirty(Node* node, std::vector<Node*>* stack,
         dirty = edge->deps_missing_ = true;
     }
   }
+
+  if (revisit_deps_missing)
+    edge->deps_missing_ = true;
+  if (revisit_dirty || revisit_deps_missing)
+    dirty = true;
 
   // Finally, visit each output and update their dirty state if necessary.
   if (dirty) {
